@@ -25,6 +25,8 @@ type Unit struct {
 	History []Letter `json:"history"`
 	Mon     Monitors `json:"mon"`
 	Tag     string   `json:"tag"` // which layer generated it
+	// Pipelined: all batches are encoded first, then decoded in order.
+	Pipelined bool `json:"pipelined,omitempty"`
 }
 
 type Finding struct {
@@ -92,7 +94,17 @@ func runUnits(units []Unit, shard, nshard int) *WorkerOut {
 		out.Units++
 		out.Layers[u.Tag]++
 		st := NewStream(u.Opts, u.Mon)
-		for step, l := range u.History {
+		st.pipelined = u.Pipelined
+		hist := u.History
+		if u.Pipelined {
+			// second pass over the same letters performs the decodes
+			hist = append(append([]Letter{}, u.History...), u.History...)
+		}
+		for step, l := range hist {
+			if u.Pipelined {
+				st.phase = step / len(u.History)
+				step = step % len(u.History)
+			}
 			node := unitKey(u, step)
 			if !seenNode[node] {
 				seenNode[node] = true
